@@ -10,14 +10,14 @@ from vmon.oracle import cifcmp
 from vmon.oracle import geometry as G
 
 PROPERTY = "C15"
-RULE = ("Generated structures (1-12 atoms; orthorhombic, LAMMPS-triclinic, arbitrarily rotated and almost orthorhombic (angles 1e-5..5e-3 degrees from 90) cells; coordinates "
+RULE = ("Generated structures (1-12 atoms; orthorhombic, LAMMPS-triclinic, arbitrarily rotated, right-angled in a rotated frame (random, quarter turn, permuted axes, sqrt2 x sqrt2 setting) and almost orthorhombic (angles 1e-5..5e-3 degrees from 90) cells; coordinates "
         "inside, outside and exactly on the cell boundary; bonds/angles/dihedrals/impropers; extra per-atom, per-bond, "
         "per-angle and per-torsion columns; fractional or Cartesian output). t1=save(a), b=load(t1), t2=save(b), "
         "t3=save(load(t2)): b is compared with a field by field (fractional coordinates modulo 1 to half the printed "
         "unit), t2 with t1 and t3 with t2 token-wise (byte-wise for orthorhombic cells with atoms strictly inside), "
         "ASE's CIF reader must agree with mofun's on cell and positions, and reading variants built from mofun's own "
         "file at token level - (su) parentheses on cell and coordinate numbers, numbers in exponent notation, 'P1' spelling, no symmetry tag, "
-        "non-P1 space-group names (must be rejected) - are loaded. History: the written object is edited where it is and written again to a path that was "
+        "non-P1 space-group names incl. the full monoclinic symbols that begin with 'P 1' (must be rejected) - are loaded. History: the written object is edited where it is and written again to a path that was "
         "already written and read once; the reading of that path is compared with the object as it is then. Non-trivial: triclinic cell or out-of-cell "
         "coordinates or at least two loops with extra columns; distinct by generator seed.")
 ASSUMPTIONS = ["PyCifRW 5.0.1 is the only CIF library version observable here", "extra column labels are lower-case CIF data names (CIF names are case-insensitive; the reader lower-cases them)",
